@@ -544,7 +544,7 @@ def route_ok(r, static_files):
     return r["rule"] in PUBLIC or ((not static_files) if r["static"] else r["prot"])
 
 
-def gen_lean(table, static_files, triples=(), calls=None, mrows=None):
+def gen_lean(table, static_files, triples=(), calls=None, mrows=None, rrows=None):
     rows = ",\n    ".join(
         "{ rule := %s, methods := [%s], prot := %s, autoOptions := %s, static := %s }" % (
             lean_str(r["rule"]), ", ".join(lean_str(m) for m in r["methods"]),
@@ -640,6 +640,31 @@ def gen_lean(table, static_files, triples=(), calls=None, mrows=None):
             if tgt is not None:
                 body += (f"theorem violated_method : ¬ C15_fullM table methodObs := C15_witness_method table methodObs {tgt[0]} {lean_str(tgt[1])} (by decide)\n"
                          "#print axioms violated_method\n")
+    if rrows is not None:
+        body += "def residueObs : ResidueObs := [\n    " + ",\n    ".join("(%s, %s)" % (lean_str(n_), str(bool(v_)).lower()) for n_, v_ in rrows) + " ]\n"
+        stateless = not any(v_ for _, v_ in rrows)
+        verdict["check_is_stateless"] = stateless
+        if stateless:
+            body += ("theorem check_is_stateless : checkIsStateless residueObs = true := by decide\n#print axioms check_is_stateless\n"
+                     "theorem fullH_iff : C15_fullH false table ↔ C15_full table := C15_fullH_iff table\n#print axioms fullH_iff\n")
+            if all_ok:
+                body += ("theorem refuse_after_history {σ π : Type} (V : View σ π) (τ : List Char) (s0 : σ) (hist : List (Request π × Bool)) (r : Request π) (raised : Bool)\n"
+                         "    (hnp : ¬ presents r τ) (hpub : ∀ rt, table.routes[r.route]? = some rt → isPublic rt = false) (hopt : r.method ≠ \"OPTIONS\") :\n"
+                         "    (stepH false V table τ (runH false V table τ ⟨s0, false⟩ hist) r raised).2 ≥ 400 ∧\n"
+                         "    (stepH false V table τ (runH false V table τ ⟨s0, false⟩ hist) r raised).1.st = (runH false V table τ ⟨s0, false⟩ hist).st :=\n"
+                         "  C15_refuse_after_history table (by decide) V τ s0 hist r raised hnp hpub hopt\n#print axioms refuse_after_history\n")
+        else:
+            verdict["full"] = False
+            body += "theorem check_is_not_stateless : checkIsStateless residueObs = false := by decide\n#print axioms check_is_not_stateless\n"
+            tgt = None
+            for i, r in enumerate(table):
+                if r["rule"] not in PUBLIC and not r["static"] and r["prot"]:
+                    ms = [m for m in r["methods"] if not (m == "OPTIONS" and r["auto"])]
+                    if ms:
+                        tgt = (i, ms[0]); break
+            if tgt is not None:
+                body += (f"theorem violated_sticky : ¬ C15_fullH true table := C15_witness_sticky table {tgt[0]} {lean_str(tgt[1])} (by decide)\n"
+                         "#print axioms violated_sticky\n")
     if calls is not None:
         cbody, cverdict = gen_calls(calls)
         body += cbody
@@ -681,6 +706,214 @@ def probe_method_check():
     finally:
         reach.close()
     return rows
+
+
+# ------------------------------------------------------------------ the server-state axis: histories of authorised requests (wave 8)
+_SB = {k: UNION_BODY[k] for k in ("scenario_managers", "scenarios", "equations")}
+AUTH_OPS = {     # name -> (rule, method, instance id name, body)     — all sent WITH the right token
+    "scenarios": ("/scenarios", "GET", "UNKNOWN", None),
+    "equations-ok": ("/equations", "POST", "UNKNOWN", {"scenarioManager": "firstManager", "scenario": "1"}),
+    "equations-unknown-scenario": ("/equations", "POST", "UNKNOWN", {"scenarioManager": "firstManager", "scenario": "no-such-scenario"}),
+    "equations-unknown-manager": ("/equations", "POST", "UNKNOWN", {"scenarioManager": "no-such-manager", "scenario": "1"}),
+    "equations-empty-body": ("/equations", "POST", "UNKNOWN", {}),
+    "run-ok": ("/run", "POST", "UNKNOWN", UNION_BODY),
+    "run-unknown-manager": ("/run", "POST", "UNKNOWN", dict(UNION_BODY, scenario_managers=["no-such-manager"])),
+    "run-unknown-scenario": ("/run", "PUT", "UNKNOWN", dict(UNION_BODY, scenarios=["no-such-scenario"])),
+    "run-unknown-equation": ("/run", "POST", "UNKNOWN", dict(UNION_BODY, equations=["no-such-equation"])),
+    "run-bad-settings": ("/run", "POST", "UNKNOWN", dict(UNION_BODY, settings={"firstManager": {"1": {"constants": {"no-such-constant": 1.0}}}})),
+    "run-malformed-json": ("/run", "POST", "UNKNOWN", ("raw", b'{"scenario_managers": [', "application/json")),
+    "run-json-list": ("/run", "POST", "UNKNOWN", ("raw", b"[1, 2, 3]", "application/json")),
+    "agents": ("/agents", "POST", "UNKNOWN", UNION_BODY),
+    "start": ("/start-instance", "POST", "UNKNOWN", {"timeout": UNION_BODY["timeout"]}),
+    "start-bad-timeout": ("/start-instance", "POST", "UNKNOWN", {"timeout": {"seconds": "soon"}}),
+    "start-instances-bad-count": ("/start-instances", "POST", "UNKNOWN", {"instances": "many"}),
+    "begin-idle": ("/<instance_uuid>/begin-session", "POST", "IDLE", _SB),
+    "begin-unknown-equation": ("/<instance_uuid>/begin-session", "POST", "IDLE", dict(_SB, equations=["no-such-equation"])),
+    "begin-unknown-manager": ("/<instance_uuid>/begin-session", "POST", "IDLE", dict(_SB, scenario_managers=["no-such-manager"])),
+    "begin-empty-body": ("/<instance_uuid>/begin-session", "POST", "IDLE", {}),
+    "step": ("/<instance_uuid>/run-step", "POST", "SESSION", {"settings": {}}),
+    "step-bad-settings": ("/<instance_uuid>/run-step", "POST", "SESSION", {"settings": {"firstManager": {"1": {"constants": {"no-such-constant": 1.0}}}}}),
+    "step-settings-not-a-dict": ("/<instance_uuid>/run-step", "POST", "SESSION", {"settings": 5}),
+    "step-idle-no-session": ("/<instance_uuid>/run-step", "POST", "IDLE", {"settings": {}}),
+    "steps-past-stoptime": ("/<instance_uuid>/run-steps", "POST", "SESSION", {"numberSteps": 40, "settings": {}}),
+    "steps-bad-count": ("/<instance_uuid>/run-steps", "POST", "SESSION", {"numberSteps": "x", "settings": {}}),
+    "stream": ("/<instance_uuid>/stream-steps", "POST", "SESSION", {"settings": {}}),
+    "stream-idle-no-session": ("/<instance_uuid>/stream-steps", "POST", "IDLE", {"settings": {}}),
+    "results-idle-no-session": ("/<instance_uuid>/flat-session-results", "GET", "IDLE", None),
+    "results-unknown": ("/<instance_uuid>/session-results", "GET", "UNKNOWN", None),
+    "restore-stored": ("/<instance_uuid>/session-results", "GET", "STORED", None),
+    "end": ("/<instance_uuid>/end-session", "POST", "SESSION", None),
+    "keepalive-unknown": ("/<instance_uuid>/keep-alive", "POST", "UNKNOWN", None),
+    "stop-unknown": ("/<instance_uuid>/stop-instance", "POST", "UNKNOWN", None),
+    "save-state": ("/save-state", "GET", "UNKNOWN", None),
+    "load-state": ("/load-state", "POST", "UNKNOWN", None),
+}
+H_SHAPES = [("absent", None), ("wrong", "Bearer not-the-token"), ("prefix", "Bearer " + TOKEN[:-1]), ("empty-credentials", "Bearer "), ("token-alone", TOKEN)]
+H_FIXED = [("/scenarios", "GET", "UNKNOWN"), ("/start-instance", "POST", "UNKNOWN"), ("/run", "POST", "UNKNOWN"), ("/<instance_uuid>/run-step", "POST", "SESSION"),
+           ("/<instance_uuid>/stop-instance", "POST", "IDLE"), ("/save-state", "GET", "UNKNOWN")]
+
+
+def do_auth_op(w, name):
+    """one authorised request of a history. Returns (rule, method, status, raised?, reached?) — raised = the handler let an
+    exception out (Flask's own error page: 500, or 400 for an unparsable body)."""
+    rule, m, idn, body = AUTH_OPS[name]
+    path = w.path_of(rule, idn)
+    kw = {"data": body[1], "content_type": body[2]} if isinstance(body, tuple) else ({"json": body} if body is not None else {})
+    w.reach.hit = False
+    raised = False
+    try:
+        resp = w.client.open(path, method=m, headers=auth_hdr(w.token), **kw)
+        status = resp.status_code
+        try:
+            resp.get_data()
+        except Exception:
+            raised = True          # the streamed body raised
+        raised = raised or (status >= 400 and (resp.mimetype or "").startswith("text/html"))
+        resp.close()
+    except Exception:
+        status, raised = 599, True
+    return rule, m, status, raised, bool(w.reach.hit)
+
+
+def own_attributes(app):
+    """what the wrapper could leave behind: attributes of the server object and of its class that Flask itself does not
+    have, and the simple-valued globals of bptkServer.py — simple values by value, objects by identity"""
+    import flask
+    import BPTK_Py.server.bptkServer as S
+    def val(v):
+        return repr(v) if isinstance(v, (bool, int, float, str, bytes, type(None), tuple, frozenset)) else "<%s at %x>" % (type(v).__name__, id(v))
+    base = set(vars(flask.Flask("c15plain"))) | set(dir(flask.Flask))
+    out = {"self." + k: val(v) for k, v in vars(app).items() if k not in base}
+    out.update({"class." + k: val(v) for k, v in vars(type(app)).items() if k not in base and not callable(v) and not isinstance(v, (staticmethod, classmethod, property))})
+    out.update({"module." + k: val(v) for k, v in vars(S).items() if not k.startswith("__") and isinstance(v, (bool, int, float, str, type(None), tuple))})
+    return out
+
+
+def run_history(w, ops, lines=None, table=None):
+    """drive the server through a history of authorised requests; afterwards the state the history left is the base for
+    the state-equality reference. Returns [(name, status, raised, attributes changed by the request)]."""
+    log = []
+    for name in ops:
+        before = own_attributes(w.app)
+        rule, m, status, raised, reached = do_auth_op(w, name)
+        after = own_attributes(w.app)
+        changed = sorted(k for k in set(before) | set(after) if before.get(k) != after.get(k))
+        log.append((name, status, raised, changed))
+        if lines is not None and table is not None:
+            ti = next((j for j, r in enumerate(table) if r["rule"] == rule and m in r["methods"]), None)
+            if ti is not None:
+                lines[0].append("hreq %d %s %s %s %d" % (ti, m, enc("Bearer " + w.token), enc("x.txt"), raised))
+                lines[1].append("view" if reached else str(status)); lines[2].append({"history_op": name})
+    w.base = snapshot(w.app, w.dir)
+    return log
+
+
+def refused_after(chk, w, state, ops, table, targets, out, label):
+    """refused requests after a history: status >= 400 and nothing changed relative to what the history left"""
+    req_lines, real_lines, ctx, findings, dist = out
+    n = 0
+    for (rule, m, idn), (name, hdr) in targets:
+        ti = next((j for j, r in enumerate(table) if r["rule"] == rule and m in r["methods"]), None)
+        if ti is None or idn not in w.ids:
+            continue
+        status, reached, changes = w.request(rule, m, idn, hdr, UNION_BODY if m in ("POST", "PUT") else None)
+        n += 1
+        req_lines.append("req %d %s %s %s" % (ti, m, "absent" if hdr is None else enc(hdr), enc("x.txt")))
+        real_lines.append("view" if reached else str(status))
+        case = {"state": state, "history": list(ops), "rule": rule, "method": m, "instance": idn, "shape": name, "header": hdr,
+                "body": m in ("POST", "PUT"), "trailing_slash": False}
+        ctx.append(case)
+        chk.case(("history", tuple(ops), rule, m, idn, name), nontrivial=rule not in PUBLIC)
+        dist["after_history"][label] = dist["after_history"].get(label, 0) + 1
+        key = classify(rule, m, presents_ref(hdr, TOKEN), status, reached, changes)
+        if key == "auto-options-200":
+            key = None
+        if key and key not in findings:
+            findings[key] = (f"after the authorised requests {list(ops)} (state {state}): {m} {rule} (instance {idn}) with Authorization "
+                             f"{'absent' if hdr is None else repr(hdr)} -> HTTP {status}, view reached: {reached}, state changes: {changes or 'none'}",
+                             dict(case, status=status, reached=reached, changes=changes, token=TOKEN))
+        if changes:
+            w.base = snapshot(w.app, w.dir)
+    return n
+
+
+def in_flight_probe():
+    """a request WITHOUT the token that arrives while an authorised request is inside its handler (same server object;
+    issued from inside bptk.get_scenario_names during an authorised GET /scenarios): refused?"""
+    w = World("live-session")
+    seen = {}
+    try:
+        orig = w.app._bptk.get_scenario_names
+        def during(*a, **k):
+            if "status" not in seen:
+                seen["status"] = None
+                try:
+                    r2 = w.app.test_client().get("/scenarios")
+                    seen["status"] = r2.status_code
+                    r2.close()
+                except Exception:
+                    seen["status"] = 599
+            return orig(*a, **k)
+        w.app._bptk.get_scenario_names = during
+        r = w.client.get("/scenarios", headers=auth_hdr(w.token))
+        seen["outer"] = r.status_code
+        r.close()
+    finally:
+        w.close()
+    return seen
+
+
+def history_singles(chk, table, out):
+    """every authorised request of the catalogue alone as a history, in the states it makes sense in, each followed by the
+    fixed refused requests x 5 credential shapes; returns the rows of the residue table"""
+    rows, residue_attrs, statuses = [], {}, {}
+    # the same refused requests on a server WITHOUT history: what is served there already is not an effect of a history
+    w = World("live-session")
+    try:
+        scratch = ([], [], [], {}, {"after_history": {}})
+        refused_after(chk, w, "live-session", [], table, [(t, sh) for t in H_FIXED for sh in (H_SHAPES if t == H_FIXED[0] else H_SHAPES[:2])], scratch, "none")
+        fresh_served = any(k in scratch[3] for k in ("served-without-token", "state-changed-without-token"))
+    finally:
+        w.close()
+    for name in AUTH_OPS:
+        for state in (["live-session", "locked-session"] if AUTH_OPS[name][2] == "SESSION" else ["live-session"]):
+            w = World(state)
+            out[0].append("hnew"); out[1].append("ok"); out[2].append(None)
+            try:
+                log = run_history(w, [name], out, table)
+                targets = [(t, sh) for t in H_FIXED for sh in (H_SHAPES if t == H_FIXED[0] else H_SHAPES[:2])]
+                before = dict(out[3])
+                refused_after(chk, w, state, [name], table, targets, out, "single:" + ("raising" if log[0][2] else "status-%d" % log[0][1]))
+                served = any(k in out[3] and k not in before for k in ("served-without-token", "state-changed-without-token"))
+            finally:
+                w.close()
+            rows.append((name + ("" if state == "live-session" else " (locked)"), served and not fresh_served))
+            statuses[rows[-1][0]] = {"status": log[0][1], "raised": log[0][2]}
+            for a in log[0][3]:
+                residue_attrs.setdefault(a, []).append(name)
+    return rows, residue_attrs, statuses, fresh_served
+
+
+def history_random(chk, table, out, n_hist, per_hist):
+    rng = chk.rng.fork("c15-histories")
+    names = list(AUTH_OPS)
+    all_targets = [((r["rule"], m, idn)) for r in table if not r["static"] and r["rule"] not in PUBLIC
+                   for m in r["methods"] if m != "OPTIONS" for idn in (["UNKNOWN", "STORED", "SESSION", "IDLE"] if "<" in r["rule"] else ["UNKNOWN"])]
+    n = 0
+    for h in range(n_hist):
+        state = rng.choice(["live-session", "live-session", "locked-session", "no-instance"])
+        ops = [rng.choice(names) for _ in range(rng.range(2, 7))]
+        w = World(state)
+        ops = [o for o in ops if AUTH_OPS[o][2] in w.ids]
+        out[0].append("hnew"); out[1].append("ok"); out[2].append(None)
+        try:
+            log = run_history(w, ops, out, table)
+            targets = [(rng.choice(all_targets), rng.choice(H_SHAPES)) for _ in range(per_hist)]
+            n += refused_after(chk, w, state, ops, table, targets, out, "random:%s" % ("with-raising" if any(l[2] for l in log) else "no-raising"))
+        finally:
+            w.close()
+    out[0].append("hnew"); out[1].append("ok"); out[2].append(None)
+    return n
 
 
 # ------------------------------------------------------------------ call order inside one request (wave 5)
@@ -1095,6 +1328,9 @@ def run(chk):
             triples = probe_compare()
             calls = probe_calls(table)
             mrows = probe_method_check()
+        dist = {"by_state": {}, "by_shape": {}, "by_method": {}, "by_instance_id": {}, "by_body": {}, "trailing_slash": 0, "after_history": {},
+                "status": {}, "reached": 0, "refused": 0, "rebuilds": 0}
+        h_req, h_real, h_ctx = [], [], []
         skipped = {m for m, v in mrows if v}
         if skipped:
             # a view reached without the token only through methods for which the WRAPPER skips the check is a protected
@@ -1102,7 +1338,22 @@ def run(chk):
             for r in table:
                 if not r["static"] and r["reached_by"] and all(m in skipped for m in r["reached_by"]):
                     r["prot"] = True
-        gen_text, verdict = gen_lean(table, static_files, triples, calls, mrows)
+        with contextlib.redirect_stdout(sink):
+            # the server-state axis: every authorised request of the catalogue (succeeding, answering 500, raising) as a
+            # history, followed by refused requests; and a refused request arriving while an authorised one is in flight
+            rrows, residue_attrs, op_status, fresh_served = history_singles(chk, table, (h_req, h_real, h_ctx, findings, dist))
+            flight = in_flight_probe()
+        rrows.append(("in flight: inside the handler of an authorised GET /scenarios", flight.get("status") is not None and flight["status"] < 400 and not fresh_served))
+        if flight.get("status") is not None and flight["status"] < 400 and "served-without-token" not in findings:
+            findings["served-without-token"] = (f"GET /scenarios without Authorization header, arriving while an authorised GET /scenarios is inside its handler on the same "
+                                                f"server object -> HTTP {flight['status']}", {"probe": "in-flight", "status": flight["status"]})
+        if residue_attrs and any(v_ for _, v_ in rrows):
+            for k_ in ("served-without-token", "state-changed-without-token"):
+                if k_ in findings and "history" in findings[k_][1]:
+                    findings[k_] = (findings[k_][0] + f" — server attributes written during authorised requests: {sorted(residue_attrs)}", findings[k_][1])
+        chk.notes["history_probe"] = {"authorised_requests": op_status, "attributes_written_during_authorised_requests": residue_attrs,
+                                      "served_afterwards": [n_ for n_, v_ in rrows if v_]}
+        gen_text, verdict = gen_lean(table, static_files, triples, calls, mrows, rrows)
         chk.notes["method_probe"] = [list(x) for x in mrows]
         chk.notes["tokens_without_header"] = [list(x) for x in ABSENT_ROWS]
         for e_, reached_, st_ in ABSENT_ROWS:
@@ -1136,6 +1387,7 @@ def run(chk):
             "Flask/werkzeug: URL matching, method check (405), automatic OPTIONS, header parsing — modelled by `handle` from the probed table, validated only by the correspondence run",
             "the probe of this module: route table read from app.url_map; a view counts as protected iff a request without Authorization header (sentinel token configured) never enters the view's inner function (sys.monitoring on the code objects behind functools.wraps / closure cells)",
             "views are an arbitrary parameter V of the model: nothing about what a view does once reached is assumed",
+            "the history probe (wave 8): 36 kinds of authorised requests (served, answered 500, raising) each as a history and random sequences of them, followed by refused requests; `raised` = Flask's own error page; the residue of the wrapper is observed behaviourally (a refused request served afterwards, or while an authorised one is inside its handler) and as attributes of the server object / class / module written during authorised requests (diagnostic only)",
             "the call-order probe (wave 5): sys.monitoring PY_START filtered to bptkServer.py, the external-state adapter package and bptk.py; `check` = entry of the token_required wrapper, `touch` = entry of any other function there; helpers the wrapper itself calls before the wrapped function count as part of the check unless they belong to InstanceManager / adapters / bptk; callsOK decided by the kernel on the generated table",
             "the comparison probe: (presented, expected, accepted?) triples from servers configured with 7 tokens (every proper prefix incl. the empty word, extensions, one-character words, same-length variants); the model's comparison is string equality patched by these observations, `compareIsEquality obs` is decided by the kernel",
             "werkzeug's two gateways (test client: repeated lines joined by ', '; WSGI server over a socket: joined by ',', leading blanks/tabs dropped, obs-fold = concatenation) are modelled by `headerValue` and validated by the correspondence only",
@@ -1154,6 +1406,8 @@ def run(chk):
             real_lines.append("ok"); ctx.append(None)
         for f in static_files:
             req_lines.append("static " + enc(f)); real_lines.append("ok"); ctx.append(None)
+        req_lines.append("cfg sticky %d" % (not verdict.get("check_is_stateless", True))); real_lines.append("ok"); ctx.append(None)
+        req_lines += h_req; real_lines += h_real; ctx += h_ctx
         for m_, v_ in mrows:              # methods for which the wrapper was observed to skip the check
             if v_:
                 req_lines.append("mobs %s 1" % m_); real_lines.append("ok"); ctx.append(None)
@@ -1164,7 +1418,6 @@ def run(chk):
                 findings["wrong-credential-accepted"] = (
                     f"server configured with bearer token {e_!r}: GET /scenarios with Authorization {'Bearer ' + p_!r} -> HTTP {st_}, view reached",
                     {"probe": "compare", "expected": e_, "presented": p_, "status": st_, "rule": "/scenarios", "method": "GET"})
-        dist = {"by_state": {}, "by_shape": {}, "by_method": {}, "by_instance_id": {}, "by_body": {}, "trailing_slash": 0, "status": {}, "reached": 0, "refused": 0, "rebuilds": 0}
         n_req = 0
         with contextlib.redirect_stdout(sink):
             for state in STATES:
@@ -1236,6 +1489,7 @@ def run(chk):
                 finally:
                     w.close()
             n_req += no_adapter_stream(chk, table, (req_lines, real_lines, ctx, findings, dist))
+            n_req += history_random(chk, table, (req_lines, real_lines, ctx, findings, dist), 20 if chk.quick else 300, 12)
             controls = reference_controls()
         chk.notes["state_reference_controls"] = controls
         blind = [c for c in controls if c["status"] < 400 and c["missing"]]
@@ -1311,6 +1565,17 @@ def replay(path):
         print(f"token {r['expected']!r} configured, GET /scenarios with Authorization {('Bearer ' + r['presented']) if r['presented'] is not None else None!r}: HTTP {st} -> "
               + ("served without the token" if bad else "refused correctly"))
         return 1 if bad else 0
+    if r.get("probe") == "in-flight":
+        sink = io.StringIO()
+        try:
+            with contextlib.redirect_stdout(sink):
+                seen = in_flight_probe()
+        finally:
+            destroy_all()
+        bad = seen.get("status") is not None and seen["status"] < 400
+        print(f"GET /scenarios without header while an authorised GET /scenarios is inside its handler: HTTP {seen.get('status')} -> "
+              + ("served without the token" if bad else "refused correctly"))
+        return 1 if bad else 0
     if r.get("probe") == "calls":
         sink = io.StringIO()
         try:
@@ -1337,6 +1602,8 @@ def replay(path):
         with contextlib.redirect_stdout(sink):
             w = World(r["state"], token=r.get("token", TOKEN))
             try:
+                if r.get("history"):
+                    run_history(w, [o for o in r["history"] if o in AUTH_OPS and AUTH_OPS[o][2] in w.ids])
                 body = UNION_BODY if r.get("body") else None
                 if r.get("transport") == "ws":
                     wl = [x.encode("latin-1") for x in r["wire"]] if r.get("wire") else [(k + ": " + v).encode("latin-1") for k, v in r["header_lines"]]
@@ -1351,6 +1618,8 @@ def replay(path):
         destroy_all()
     pres = presents_ref(r["header"], r.get("token", TOKEN))
     key = classify(r["rule"], r["method"], pres, status, reached, changes)
+    if r.get("history"):
+        print("after the authorised requests", r["history"], end=": ")
     print(f"{r['method']} {r['rule']} instance={r['instance']} state={r['state']} Authorization={r['header']!r}: "
           f"HTTP {status}, view reached {reached}, state changes {changes or 'none'} -> {key or 'refused correctly'}")
     return 1 if key else 0
